@@ -1096,8 +1096,50 @@ def gen_c12_coincidences(rng, n, funcs=None):
     return progs
 
 
+def gen_c12_across_sides(rng, n):
+    """the same constant (or the all-undefined function) reached through right-closed and through left-closed
+    operands: step-free results denote the same function whatever side they carry, so `identical` holds both ways"""
+    progs = []
+    for _ in range(n):
+        b = Builder(pick_domain(rng))
+        base = pick_spec(rng, "L", small_p=0.5, nanp=0.0, stepfree_p=0.0)
+        while not base.rows:
+            base = pick_spec(rng, "L", small_p=0.5, nanp=0.0, stepfree_p=0.0)
+        fl = b.emit_any(with_closed(base, "L"), rng)
+        fr = b.emit_any(with_closed(base, "R"), rng)
+        route = rng.choice(["sub", "mul0", "ge", "maskall", "aggsum", "ne"])
+        outs = []
+        for f in (fl, fr):
+            z = b.reg("z")
+            if route == "sub":
+                b.add(f"bin {z} sub {f} {f}")
+            elif route == "mul0":
+                b.add(f"bin {z} mul {f} #0")
+            elif route == "ge":
+                b.add(f"bin {z} ge {f} {f}")
+            elif route == "ne":
+                b.add(f"bin {z} ne {f} {f}")
+            elif route == "maskall":
+                b.add(f"maskt {z} {f} none none")
+            else:
+                ng = b.reg("n")
+                b.add(f"un {ng} neg {f}")
+                b.add(f"agg {z} sum {f} {ng}")
+            b.add(f"nsteps {z}", focus=True)
+            outs.append(z)
+        c = b.reg("c")
+        b.add(f"copy {c} {outs[0]}")
+        b.add(f"ident {outs[0]} {outs[1]}", focus=True)
+        b.add(f"ident {outs[1]} {outs[0]}", focus=True)
+        b.add(f"ident {outs[1]} {c}", focus=True)
+        b.add(f"bool {outs[1]}", focus=True)
+        b.tags.update(kind="acrosssides", route=route)
+        progs.append(b.program())
+    return progs
+
+
 def gen_c12(rng, n):
-    progs = gen_c12_coincidences(rng, n // 2)
+    progs = gen_c12_coincidences(rng, n // 2) + gen_c12_across_sides(rng, max(20, n // 15))
     for _ in range(n):
         b = Builder(pick_domain(rng))
         cl = rng.choice("LR")
@@ -1393,7 +1435,7 @@ def gen_c13_chain(rng, n):
         A = b.emit_any(fa, rng)
         B = b.emit_any(fb, rng)
         h = b.reg("h")
-        kind = rng.choice(["agg", "agg", "mulc", "divc", "cmul", "bin", "rel", "logic", "un", "clipnone"])
+        kind = rng.choice(["agg", "agg", "mulc", "divc", "cmul", "bin", "rel", "logic", "un", "un", "unna", "clipnone"])
         if kind == "agg":
             b.add(f"agg {h} {rng.choice(['logical_or', 'logical_and', 'sum', 'max', 'mean'])} {A} {B}" +
                   opt_suffix(["container=" + rng.choice(["list", "tuple", "sarray", "series"])]))
@@ -1411,9 +1453,23 @@ def gen_c13_chain(rng, n):
             b.add(f"bin {h} {rng.choice(BINOPS_LOGIC)} {A} {B}")
         elif kind == "un":
             b.add(f"un {h} {rng.choice(UNOPS)} {A}")
+        elif kind == "unna":
+            m0 = b.reg("m")
+            b.add(f"maskt {m0} {A} {rng.choice([1, 2, 3])} {rng.choice([4, 6])}")
+            b.add(f"un {h} {rng.choice(['isna', 'notna'])} {m0}")
         else:
             b.add(f"clip {h} {A} none none")
-        d, kd = emit_op(b, rng, h, B, want=rng.choice(["copy", "copy", "shift", "fillnas", "fillnam"]))
+        if rng.random() < (0.7 if kind in ("un", "unna") else 0.35):
+            # sibling results: the SAME call made twice must give two independent objects (a memoised result object
+            # handed out twice is shared state)
+            kd = "sibling"
+            d = b.reg("h")
+            last = b.lines[-1]
+            parts = last.split(" ")
+            parts[1] = d
+            b.add(" ".join(parts))
+        else:
+            d, kd = emit_op(b, rng, h, B, want=rng.choice(["copy", "copy", "shift", "fillnas", "fillnam"]))
         regs = [A, B, h, d]
         for r in regs:
             b.add(f"frame {r}", focus=True)
@@ -1463,6 +1519,7 @@ def gen_c14(rng, n):
             r = r2
             queries = [q for q in QUERIES if not q.startswith(("perc", "frac", "median"))]
         hist = []
+        others = []
         for _ in range(rng.randint(3, 9)):
             t = rng.random()
             if t < 0.55:
@@ -1483,6 +1540,18 @@ def gen_c14(rng, n):
                 else:
                     b.add(f"layer {r} {s} {e} {v}")
                 hist.append((s, e, v, vec))
+            elif t < 0.91 and len(others) < 2:
+                # a copy is a new object with caches of its own: from here on the history continues on one of the
+                # two, the other one is queried again at the end (and sometimes right away)
+                r2 = b.reg()
+                b.add(f"copy {r2} {r}")
+                if rng.random() < 0.5:
+                    others.append(r)
+                    r = r2
+                else:
+                    others.append(r2)
+                if rng.random() < 0.5:
+                    b.add(f"q {others[-1]} {rng.choice(queries)}", focus=True)
             elif hist:
                 s, e, v, vec = hist.pop()
                 # return to an earlier state
@@ -1494,6 +1563,10 @@ def gen_c14(rng, n):
         for q in rng.sample(queries, 5):
             b.add(f"q {r} {q}", focus=True)
         b.add(f"frame {r}", focus=True)
+        for o_ in others:
+            for q in rng.sample(queries, 4):
+                b.add(f"q {o_} {q}", focus=True)
+            b.add(f"frame {o_}", focus=True)
         progs.append(b.program())
     return progs
 
